@@ -31,6 +31,7 @@ func init() {
 			ruleReadersWriteNothing(c, "R11", "hosts", "router")
 			ruleEntryConditionBelongsToTheGroup(c, "R12")
 			ruleParamWriters(c, "R13")
+			ruleCallersSlicesAreNotRetained(c, "R14", "Matcher")
 		},
 	})
 	register(&Spec{
@@ -583,7 +584,11 @@ func rulePathVersion(c *Ctx, rule string) {
 		c.R.Add(rule, c.fk(ctor), "store:version[i]=normalised", c.pos(in), good, ifelse(good, "the stored version is the φ of both normalisation steps (leading and trailing '/')", "the constructor stores "+t+": a version without both slashes reaches the matcher"))
 	})
 	if !found {
-		c.R.Add(rule, c.fk(ctor), "store:version[i]=normalised", c.P.Pos(ctor.Pos()), false, "the constructor no longer stores normalised versions")
+		// the element stores sit in a helper (ownVersions(version, norm)): the constructor is evaluated instead — in
+		// each of the four cases (leading '/' present or not, trailing '/' present or not) every string stored for the
+		// generic version is that version with exactly the missing slashes added
+		okEval, detail := ctorNormalisesByEvaluation(c, ctor)
+		c.R.Add(rule, c.fk(ctor), "store:version[i]=normalised", c.P.Pos(ctor.Pos()), okEval, ifelse(okEval, "by evaluation: "+detail, "the constructor no longer stores normalised versions ("+detail+")"))
 	}
 	for _, l := range rangeLoops(ctor) {
 		for _, e := range l.elems {
@@ -1308,4 +1313,93 @@ func alwaysTrue(v ssa.Value, depth int) bool {
 		}
 	}
 	return len(rets) > 0
+}
+
+// ctorNormalisesByEvaluation runs the path-version constructor symbolically (symeval.go) for a generic version V0.
+func ctorNormalisesByEvaluation(c *Ctx, ctor *ssa.Function) (bool, string) {
+	flatten := func(e string) string {
+		// ADD(ADD(CONST:"/",V0),CONST:"/") → /V0/
+		for i := 0; i < 6; i++ {
+			e = strings.ReplaceAll(e, `CONST:"/"`, "/")
+		}
+		e = strings.NewReplacer("ADD(", "", ")", "", ",", "").Replace(e)
+		return e
+	}
+	stores := 0
+	for _, lead := range []bool{true, false} {
+		for _, trail := range []bool{true, false} {
+			lead, trail := lead, trail
+			se := &symEval{c: c}
+			se.elem = func(coll string) string {
+				if coll == "VLIST" {
+					return "V0"
+				}
+				return ""
+			}
+			se.nonEmpty = func(coll string) bool { return coll == "VLIST" }
+			se.elemAt = func(coll string, idx int64) string {
+				if idx == 0 && (coll == "V0" || strings.Contains(coll, "V0")) {
+					if strings.HasPrefix(coll, `ADD(CONST:"/"`) {
+						return "CONST:47" // a '/' was put in front
+					}
+					return "FIRST"
+				}
+				return ""
+			}
+			se.truth = func(e string) int {
+				b := func(v bool) int {
+					if v {
+						return 1
+					}
+					return -1
+				}
+				switch {
+				case e == `EQ(V0,CONST:"")`:
+					return -1
+				case e == `NE(V0,CONST:"")`:
+					return 1
+				case e == "NE(FIRST,CONST:47)":
+					return b(lead) // the leading '/' is missing
+				case e == "EQ(FIRST,CONST:47)":
+					return b(!lead)
+				case strings.HasPrefix(e, "NE(ELEM(") && strings.HasSuffix(e, ",CONST:47)"):
+					return b(trail) // the last byte is not '/'
+				case strings.HasPrefix(e, "EQ(ELEM(") && strings.HasSuffix(e, ",CONST:47)"):
+					return b(!trail)
+				case e == "EQ(FUNC,NIL)":
+					return -1
+				case e == "NE(FUNC,NIL)":
+					return 1
+				}
+				return 0
+			}
+			want := "V0"
+			if lead {
+				want = "/" + want
+			}
+			if trail {
+				want += "/"
+			}
+			st := &sstate{env: map[ssa.Value]sval{}, heap: map[string]sval{}}
+			for _, r := range se.run(ctor, []sval{sv("PARAM"), sv("VLIST")}, nil, st, 0) {
+				if r.pan {
+					continue
+				}
+				for _, eff := range r.st.effects {
+					if !strings.HasPrefix(eff, "STORE ") || !strings.Contains(eff, "V0") {
+						continue
+					}
+					val := eff[strings.Index(eff, " = ")+3:]
+					stores++
+					if got := flatten(val); got != want {
+						return false, fmt.Sprintf("with the leading '/' %s and the trailing '/' %s the version is stored as %s, expected %s", ifelse(lead, "missing", "present"), ifelse(trail, "missing", "present"), got, want)
+					}
+				}
+			}
+		}
+	}
+	if stores == 0 {
+		return false, "no store of a version was seen on any evaluated path"
+	}
+	return true, fmt.Sprintf("%d stores in four cases, each the version with exactly the missing slashes added", stores)
 }
